@@ -79,6 +79,7 @@ PANIC_REVIEWED = {
     ('schema::Name::name', 'assert:overflow(Add)'): (1, 'delimiter index + 1 of an index into an existing String'),
     ('schema::Name::name', 'index'): (1, 'slicing at the stored delimiter index (private field, computed from rfind / format!)'),
     ('schema::Name::namespace::{closure#0}', 'index'): (1, 'same'),
+    ('schema::Name::namespace', 'index'): (1, 'the same site written as a match instead of Option::map (index kept consistent by the name-index rule)'),
 }
 
 
@@ -100,7 +101,7 @@ STATE_TYPES = ('alloc::vec::Vec<bool>', '&mut alloc::vec::Vec<bool>', '[core::ce
 def visited_state_origin(body, o):
     """does the origin touch a per-node visited/in-progress table?"""
     for a in o.atoms:
-        if a[0] == 'param' and 'Vec<bool>' in body.local_ty(a[1]):
+        if a[0] == 'param' and is_bool_table(body.local_ty(a[1])):
             return True
     for fld in o.fields:
         if fld in ('named_type_written', 'unnamed_in_progress', 'node_traversal_state', 'visited_nodes', 'in_progress', 'visited'):
